@@ -247,7 +247,7 @@ func runParse(candFile string) {
 		enumStrings(alphabet, L, func(s string) { parseCase(k, s, "exh") })
 	}
 	// 3. longer strings over the per-parser reduced alphabets, and token-level sequences
-	L2, T := 5, 4
+	L2, T := 4, 4
 	if thorough {
 		L2, T = 6, 5
 	}
@@ -280,7 +280,7 @@ func runParse(candFile string) {
 			specs = append(specs, randTripleSpec(false))
 		}
 	}
-	every := 6
+	every := 10
 	if thorough {
 		every = 1
 	}
@@ -390,6 +390,11 @@ func itoa(i int) string {
 
 // listGraph lists the graph through Graph.Triples and projects with accessors (zone-free).
 func listGraph(g storage.Graph) ([][]Rec, bool) {
+	r, _, ok := listGraphT(g)
+	return r, ok
+}
+
+func listGraphT(g storage.Graph) ([][]Rec, []*triple.Triple, bool) {
 	ch := make(chan *triple.Triple, 64)
 	var err error
 	done := make(chan struct{})
@@ -398,12 +403,14 @@ func listGraph(g storage.Graph) ([][]Rec, bool) {
 		close(done)
 	}()
 	res := [][]Rec{}
+	var ts []*triple.Triple
 	for t := range ch {
 		recs, _ := projTriple(t, false)
 		res = append(res, recs)
+		ts = append(ts, t)
 	}
 	<-done
-	return res, err == nil
+	return res, ts, err == nil
 }
 
 func logLine(s string) string {
